@@ -992,4 +992,454 @@ Proof.
   - intros HU Hf. apply filter_In. split; auto. rewrite HF, HU, Hf. auto.
 Qed.
 
+(* ================================================================ *)
+(* (2) outstanding registrations = peer-learned paths using the address *)
+Definition cnt (a : N) (l : list entry) : N := N.of_nat (length (filter (uses a) l)).
+Definition ind (b : bool) : N := if b then 1 else 0.
+
+Definition ref_fold (a : N) (rq : list req) (n : N) : N := fold_left (ref_step a) rq n.
+
+Lemma ref_fold_app a r1 r2 n : ref_fold a (r1 ++ r2) n = ref_fold a r2 (ref_fold a r1 n).
+Proof. apply fold_left_app. Qed.
+
+Definition apply_only (rq : list req) : Prop :=
+  Forall (fun r => match r with Apply _ _ _ => True | _ => False end) rq.
+
+Lemma apply_only_ref a rq n : apply_only rq -> ref_fold a rq n = n.
+Proof.
+  revert n. induction rq as [|r rq IH]; cbn; auto. intros n H. inversion H; subst.
+  destruct r; try tauto. cbn. apply IH; auto.
+Qed.
+
+Lemma distribute_opt_apply_only fl p ch : apply_only (distribute_opt c V fl p ch).
+Proof.
+  destruct ch as [x|]; cbn; [|constructor]. rewrite distribute_fixed.
+  destruct (negb _); [constructor|]. cbn zeta. constructor; auto.
+  destruct (fst p =? 1); [|constructor]. unfold vrf_reqs. apply Forall_forall. intros r Hr.
+  apply in_flat_map in Hr. destruct Hr as [vr [_ Hr]]. destruct (fst vr =? 0); cbn in Hr; try tauto.
+  destruct Hr as [<-|[]]. exact I.
+Qed.
+
+Lemma cnt_cons a e l : cnt a (e :: l) = ind (uses a e) + cnt a l.
+Proof. unfold cnt, ind. cbn [filter]. destruct (uses a e); cbn [length]; lia. Qed.
+
+Lemma cnt_insert_sorted fl a e l : cnt a (insert_sorted c fl e l) = ind (uses a e) + cnt a l.
+Proof.
+  induction l as [|x t IH]; cbn [insert_sorted].
+  - apply cnt_cons.
+  - destruct (ege c fl e x); rewrite ?cnt_cons, ?IH; lia.
+Qed.
+
+Lemma cnt_remove_first a P l r :
+  find P l = Some r -> cnt a l = ind (uses a r) + cnt a (remove_first P l).
+Proof.
+  induction l as [|x t IH]; cbn [find remove_first]; try discriminate.
+  destruct (P x).
+  - intro H. inversion H; subst. apply cnt_cons.
+  - intro H. rewrite !cnt_cons, (IH H). lia.
+Qed.
+
+Lemma cnt_nil a : cnt a [] = 0.
+Proof. reflexivity. Qed.
+
+Lemma cnt_isort fl a l : cnt a (isort c fl l) = cnt a l.
+Proof.
+  unfold isort. assert (H : forall acc, cnt a (fold_left (fun acc x => insert_sorted c fl x acc) l acc) = cnt a l + cnt a acc).
+  { induction l as [|x t IH]; intro acc; cbn [fold_left].
+    - rewrite cnt_nil. lia.
+    - rewrite IH, cnt_insert_sorted, cnt_cons. lia. }
+  rewrite H, cnt_nil. lia.
+Qed.
+
+Lemma cnt_filter_split a sel l :
+  cnt a l = cnt a (filter sel l) + cnt a (filter (fun e => negb (sel e)) l).
+Proof.
+  induction l as [|x t IH]; cbn [filter]. reflexivity.
+  destruct (sel x); cbn [negb]; rewrite !cnt_cons, IH; lia.
+Qed.
+
+(* a per-destination step keeps the count in step *)
+Definition ref_ok (a : N) (d : dest) (res : dest * list req) : Prop :=
+  forall n, cnt a (d_l d) <= n ->
+    ref_fold a (snd res) n = n - cnt a (d_l d) + cnt a (d_l (fst res)).
+
+Lemma ref_ok_id a d : ref_ok a d (d, []).
+Proof. intros n H. cbn. lia. Qed.
+
+Lemma ref_ok_compose a d r1 r2 :
+  ref_ok a d r1 -> ref_ok a (fst r1) r2 -> ref_ok a d (fst r2, snd r1 ++ snd r2).
+Proof.
+  intros H1 H2 n Hn. cbn [fst snd]. rewrite ref_fold_app, (H1 n Hn), H2 by lia. lia.
+Qed.
+
+Lemma ref_unreg_nhs a (l : list entry) n :
+  (forall e, In e l -> e_peer e <> 0) -> cnt a l <= n ->
+  ref_fold a (map Unreg (nhs_of l)) n = n - cnt a l.
+Proof.
+  revert n. induction l as [|e t IH]; intros n HP Hn; cbn [nhs_of map].
+  - rewrite cnt_nil. cbn. lia.
+  - rewrite cnt_cons in *. assert (HE : e_peer e <> 0) by (apply HP; cbn; auto).
+    assert (HT : forall e, In e t -> e_peer e <> 0) by (intros; apply HP; cbn; auto).
+    specialize (fun n => IH n HT). clear HP HT.
+    set (k := cnt a t) in *. clearbody k.
+    unfold uses, nh_is in *. destruct (e_nh e) as [b|] eqn:EB; cbn [map optN_eqb] in *.
+    + unfold ref_fold in *. cbn [fold_left ref_step].
+      assert (e_peer e =? 0 = false) as HZ by lia. rewrite HZ in *. cbn [negb andb] in *.
+      destruct (b =? a) eqn:E; cbn [ind] in *.
+      * assert ((n <=? 1) = false \/ n = 1) as [HH| ->] by lia.
+        -- rewrite HH. rewrite IH; lia.
+        -- change (1 <=? 1) with true. cbv iota. rewrite IH; lia.
+      * rewrite IH; lia.
+    + rewrite andb_false_r in *. cbn [ind] in *. rewrite IH; lia.
+Qed.
+
+Ltac ref_crush :=
+  unfold ref_fold, ind in *;
+  repeat (cbn [fold_left ref_step app opt_reg opt_unreg optN_eqb negb andb] in *;
+          match goal with
+          | |- context [if ?b then _ else _] => destruct b eqn:?
+          | H : context [if ?b then _ else _] |- _ => destruct b eqn:?
+          end);
+  cbn [fold_left ref_step app opt_reg opt_unreg optN_eqb negb andb] in *; try discriminate; try lia.
+
+Lemma do_insert_ref fl d peer sess pid nh tok at_ filtered inv a :
+  ref_ok a d (fst (do_insert c fl d (peer, sess) pid nh tok at_ filtered inv),
+              if peer =? 0 then [] else
+              if optN_eqb (lookup_nexthop d peer pid) nh then [] else opt_reg nh ++ opt_unreg (lookup_nexthop d peer pid)) /\
+  ref_ok a d (fst (do_insert c fl d (peer, sess) pid nh tok at_ filtered inv),
+              nht_register peer nh (lookup_nexthop d peer pid)).
+Proof.
+  destruct (do_insert_l fl d (peer, sess) pid nh tok at_ filtered inv) as [lp HL].
+  unfold ref_ok. cbn [fst snd]. rewrite HL, cnt_insert_sorted. unfold lookup_nexthop, nht_register.
+  cbn [fst snd mk_entry].
+  assert (HU : uses a (mk_entry (peer, sess) pid lp nh tok at_ filtered inv) = negb (peer =? 0) && optN_eqb nh (Some a))
+    by reflexivity.
+  rewrite HU. clear HU HL.
+  destruct (find (same_path peer pid) (d_l d)) as [r|] eqn:EF.
+  - rewrite (cnt_remove_first a _ _ _ EF).
+    apply find_some in EF. destruct EF as [_ EP]. unfold same_path in EP. apply andb_true_iff in EP.
+    destruct EP as [EP _]. apply N.eqb_eq in EP. unfold uses, nh_is. rewrite EP.
+    set (k := cnt a (remove_first (same_path peer pid) (d_l d))). clearbody k.
+    destruct (peer =? 0) eqn:EZ; cbn [negb andb].
+    + split; intros n Hn; ref_crush.
+    + destruct nh as [x|], (e_nh r) as [y|]; split; intros n Hn; ref_crush.
+  - rewrite (remove_first_none _ _ EF).
+    set (k := cnt a (d_l d)). clearbody k.
+    destruct (peer =? 0) eqn:EZ; cbn [negb andb].
+    + split; intros n Hn; ref_crush.
+    + destruct nh as [x|]; split; intros n Hn; ref_crush.
+Qed.
+
+Lemma ref_ok_apply_post a d d' rq post :
+  ref_ok a d (d', rq) -> apply_only post -> ref_ok a d (d', rq ++ post).
+Proof. intros H HA n Hn. cbn [fst snd] in *. rewrite ref_fold_app, apply_only_ref; auto. Qed.
+
+Lemma ref_ok_apply_pre a d d' rq pre :
+  ref_ok a d (d', rq) -> apply_only pre -> ref_ok a d (d', pre ++ rq).
+Proof. intros H HA n Hn. cbn [fst snd] in *. rewrite ref_fold_app, (apply_only_ref a pre); auto. Qed.
+
+Lemma do_remove_ref d peer pid a :
+  ref_ok a d (fst (fst (do_remove d peer pid)),
+              match snd (do_remove d peer pid) with
+              | Some e => if peer =? 0 then [] else opt_unreg (e_nh e)
+              | None => []
+              end).
+Proof.
+  unfold do_remove. destruct (find (same_path peer pid) (d_l d)) as [r|] eqn:EF; cbn [fst snd].
+  2:{ apply ref_ok_id. }
+  pose proof (cnt_remove_first a _ _ _ EF) as HC.
+  apply find_some in EF. destruct EF as [_ EP]. unfold same_path in EP. apply andb_true_iff in EP.
+  destruct EP as [EP _]. apply N.eqb_eq in EP.
+  assert (HD : d_l (fst (fst (match remove_first (same_path peer pid) (d_l d) with
+              | [] => (dest0, if negb (e_filt r) then Some {| ch_bc := true; ch_ac := true; ch_cur := [] |} else None, Some r)
+              | _ :: _ => ({| d_l := remove_first (same_path peer pid) (d_l d); d_next := d_next d |},
+                  if negb (obk_eqb (best (d_l d)) (best (remove_first (same_path peer pid) (d_l d)))) || negb (e_filt r)
+                  then Some {| ch_bc := negb (obk_eqb (best (d_l d)) (best (remove_first (same_path peer pid) (d_l d))));
+                               ch_ac := negb (e_filt r); ch_cur := eligs (remove_first (same_path peer pid) (d_l d)) |}
+                  else None, Some r) end))) = remove_first (same_path peer pid) (d_l d)).
+  { destruct (remove_first (same_path peer pid) (d_l d)); reflexivity. }
+  destruct (remove_first (same_path peer pid) (d_l d)) as [|x t] eqn:ER; cbn [fst snd] in *;
+    intros n Hn; cbn [fst snd d_l dest0] in *; rewrite HC in *; unfold uses, nh_is in *; rewrite EP in *;
+    set (k := cnt a _) in *; clearbody k; destruct (e_nh r) as [y|]; ref_crush.
+Qed.
+
+Lemma do_purge_ref sel d a :
+  (forall e, sel e = true -> e_peer e <> 0) ->
+  ref_ok a d (fst (fst (do_purge sel d)), map Unreg (snd (do_purge sel d))).
+Proof.
+  intros HW n Hn. cbn [fst snd]. rewrite do_purge_l. unfold do_purge. cbn [snd].
+  rewrite (cnt_filter_split a sel (d_l d)) in *.
+  rewrite ref_unreg_nhs; try lia.
+  intros e He. apply filter_In in He. apply HW. tauto.
+Qed.
+
+Lemma do_restale_ref fl' peer d a : ref_ok a d (fst (do_restale c fl' peer d), []).
+Proof.
+  intros n Hn. cbn [fst snd]. unfold do_restale.
+  destruct (negb (existsb (fun e => e_peer e =? peer) (d_l d))); cbn [fst d_l ref_fold fold_left].
+  - lia.
+  - rewrite cnt_isort. lia.
+Qed.
+
+Lemma cnt_map_set_inv a x r l :
+  cnt a (map (fun e => if nh_is x e then set_inv r e else e) l) = cnt a l.
+Proof.
+  induction l as [|e t IH]; cbn [map]; auto. rewrite !cnt_cons, IH. f_equal.
+  destruct (nh_is x e); auto.
+Qed.
+
+Lemma do_validity_ref x r d a : ref_ok a d (fst (do_validity x r d), []).
+Proof.
+  intros n Hn. cbn [fst snd]. unfold do_validity.
+  destruct (negb (existsb _ (d_l d))); cbn [fst d_l ref_fold fold_left].
+  - lia.
+  - rewrite cnt_map_set_inv. lia.
+Qed.
+
+Lemma reset_one_ref fl inv pol p d0 acc e0 a :
+  ref_ok a d0 acc -> ref_ok a d0 (reset_one c V fl inv pol p acc e0).
+Proof.
+  intro HA. unfold reset_one.
+  destruct (apply_import c pol (e_peer e0) (e_nh e0)) as [filtered nh].
+  set (invf := match nh with Some a => memN a inv | None => false end).
+  pose proof (do_insert_ref fl (fst acc) (e_peer e0) (e_sess e0) (e_pid e0) nh (e_tok e0) (e_attr e0) filtered invf a) as [HR _].
+  unfold esrc.
+  destruct (do_insert c fl (fst acc) (e_peer e0, e_sess e0) (e_pid e0) nh (e_tok e0) (e_attr e0) filtered invf) as [d' ch].
+  cbn [fst snd] in *.
+  assert (HE : (if negb (e_peer e0 =? 0) && negb (optN_eqb (lookup_nexthop (fst acc) (e_peer e0) (e_pid e0)) nh)
+                then opt_reg nh ++ opt_unreg (lookup_nexthop (fst acc) (e_peer e0) (e_pid e0)) else []) =
+               (if e_peer e0 =? 0 then [] else
+                if optN_eqb (lookup_nexthop (fst acc) (e_peer e0) (e_pid e0)) nh then []
+                else opt_reg nh ++ opt_unreg (lookup_nexthop (fst acc) (e_peer e0) (e_pid e0)))).
+  { destruct (e_peer e0 =? 0); cbn; auto. destruct (optN_eqb _ nh); auto. }
+  rewrite HE.
+  pose proof (ref_ok_apply_post a (fst acc) d' _ (distribute_opt c V fl p ch) HR (distribute_opt_apply_only fl p ch)) as H2.
+  pose proof (ref_ok_compose a d0 acc _ HA H2) as H3. cbn [fst snd] in H3.
+  exact H3.
+Qed.
+
+Lemma do_reset_ref fl inv pol peer p d a : ref_ok a d (do_reset c V fl inv pol peer p d).
+Proof.
+  unfold do_reset. generalize (filter (fun e => (e_peer e =? peer) && negb (e_stale fl e)) (d_l d)) as snap.
+  intro snap. assert (H : ref_ok a d (d, [])) by apply ref_ok_id.
+  revert H. generalize (d, @nil req) as acc. induction snap as [|e0 t IH]; cbn [fold_left]; auto.
+  intros acc H. apply IH. apply reset_one_ref. auto.
+Qed.
+
+(* sums over the key list *)
+Definition total (a : N) (g : prefix -> dest) (ks : list prefix) : N :=
+  fold_right (fun p n => cnt a (d_l (g p)) + n) 0 ks.
+
+Lemma paths_using_total s a : paths_using s a = total a (s_get s) (s_keys s).
+Proof. reflexivity. Qed.
+
+Lemma sweep_ref a (g : prefix -> dest) (f : prefix -> dest -> dest * list req) ks :
+  (forall q, ref_ok a (g q) (f q (g q))) ->
+  forall base,
+  ref_fold a (flat_map (fun q => snd (f q (g q))) ks) (base + total a g ks) =
+  base + total a (fun q => fst (f q (g q))) ks.
+Proof.
+  intro HR. induction ks as [|q t IH]; intro base; cbn [flat_map total fold_right].
+  - reflexivity.
+  - fold (total a g t). fold (total a (fun q => fst (f q (g q))) t).
+    rewrite ref_fold_app, (HR q) by lia.
+    replace (base + (cnt a (d_l (g q)) + total a g t) - cnt a (d_l (g q)) + cnt a (d_l (fst (f q (g q)))))
+      with ((base + cnt a (d_l (fst (f q (g q))))) + total a g t) by lia.
+    rewrite IH. lia.
+Qed.
+
+Lemma total_upd_notin a g p0 d' ks : ~ In p0 ks -> total a (upd p0 d' g) ks = total a g ks.
+Proof.
+  induction ks as [|q t IH]; cbn [total fold_right In]; auto. intro H.
+  fold (total a (upd p0 d' g) t). fold (total a g t). rewrite IH by tauto.
+  unfold upd at 1. rewrite pfx_eqb_neq; auto.
+Qed.
+
+Lemma total_upd_in a g p0 d' ks : NoDup ks -> In p0 ks ->
+  total a (upd p0 d' g) ks + cnt a (d_l (g p0)) = total a g ks + cnt a (d_l d').
+Proof.
+  induction ks as [|q t IH]; cbn [total fold_right In]; try tauto. intros ND [->|HI]; inversion ND; subst.
+  - fold (total a (upd p0 d' g) t). fold (total a g t). rewrite total_upd_notin by auto.
+    unfold upd at 1. rewrite pfx_eqb_refl. lia.
+  - fold (total a (upd p0 d' g) t). fold (total a g t). specialize (IH H2 HI).
+    unfold upd at 1. rewrite pfx_eqb_neq by (intro; subst; auto). lia.
+Qed.
+
+Record InvR (s : st) (reqs : list req) : Prop := {
+  ir_nodup : NoDup (s_keys s);
+  ir_keys : forall p, ~ In p (s_keys s) -> d_l (s_get s p) = [];
+  ir_ref : forall a, ref_replay reqs a = paths_using s a
+}.
+
+Lemma sweep_invR s reqs fl' f :
+  InvR s reqs ->
+  (forall a q, ref_ok a (s_get s q) (f q (s_get s q))) ->
+  (forall q, d_l (s_get s q) = [] -> d_l (fst (f q (s_get s q))) = []) ->
+  InvR (fst (sweep s fl' f)) (reqs ++ snd (sweep s fl' f)).
+Proof.
+  intros [R1 R2 R3] HR HE. unfold sweep. constructor; cbn [fst snd s_keys s_get]; auto.
+  intro a. unfold ref_replay. rewrite fold_left_app. fold (ref_replay reqs a). rewrite R3.
+  rewrite !paths_using_total. cbn [s_get s_keys].
+  pose proof (sweep_ref a (s_get s) f (s_keys s) (HR a) 0) as H. rewrite !N.add_0_l in H. exact H.
+Qed.
+
+Lemma in_dec_keys (p0 : prefix) (ks : list prefix) : In p0 ks \/ ~ In p0 ks.
+Proof.
+  destruct (existsb (pfx_eqb p0) ks) eqn:E.
+  - left. apply existsb_exists in E. destruct E as [x [Hx E]]. apply pfx_eqb_eq in E. subst; auto.
+  - right. intro H. assert (existsb (pfx_eqb p0) ks = true); try congruence.
+    apply existsb_exists. exists p0. split; auto. apply pfx_eqb_refl.
+Qed.
+
+Lemma total_upd a g p0 d' ks : NoDup ks ->
+  (~ In p0 ks -> cnt a (d_l d') = cnt a (d_l (g p0))) ->
+  total a (upd p0 d' g) ks + cnt a (d_l (g p0)) = total a g ks + cnt a (d_l d').
+Proof.
+  intros ND HN. destruct (in_dec_keys p0 ks) as [HI|HI].
+  - apply total_upd_in; auto.
+  - rewrite total_upd_notin, HN; auto.
+Qed.
+
+Lemma total_add_key a g p0 d' ks : NoDup ks ->
+  (~ In p0 ks -> d_l (g p0) = []) ->
+  total a (upd p0 d' g) (add_key p0 ks) + cnt a (d_l (g p0)) = total a g ks + cnt a (d_l d').
+Proof.
+  intros ND HN. unfold add_key. destruct (existsb (pfx_eqb p0) ks) eqn:E.
+  - apply total_upd_in; auto. apply existsb_exists in E. destruct E as [x [Hx E]].
+    apply pfx_eqb_eq in E. subst; auto.
+  - assert (HI : ~ In p0 ks).
+    { intro H. assert (existsb (pfx_eqb p0) ks = true); try congruence.
+      apply existsb_exists. exists p0. split; auto. apply pfx_eqb_refl. }
+    cbn [total fold_right]. fold (total a (upd p0 d' g) ks). rewrite total_upd_notin by auto.
+    unfold upd at 1. rewrite pfx_eqb_refl, (HN HI), cnt_nil. lia.
+Qed.
+
+Lemma total_ge a g p0 ks : In p0 ks -> cnt a (d_l (g p0)) <= total a g ks.
+Proof.
+  induction ks as [|q t IH]; cbn [total fold_right In]; try tauto. fold (total a g t).
+  intros [->|H]; [lia | specialize (IH H); lia].
+Qed.
+
+
+Lemma cnt_le_total a (g : prefix -> dest) ks p :
+  (forall q, ~ In q ks -> d_l (g q) = []) -> cnt a (d_l (g p)) <= total a g ks.
+Proof.
+  intro HK. destruct (in_dec_keys p ks) as [HI|HI].
+  - apply total_ge; auto.
+  - rewrite (HK p HI), cnt_nil. lia.
+Qed.
+
+Lemma purge_invR s reqs sel :
+  (forall e, sel e = true -> e_peer e <> 0) ->
+  InvR s reqs -> InvR (fst (purge_pass c V s sel)) (reqs ++ snd (purge_pass c V s sel)).
+Proof.
+  intros HW H. unfold purge_pass. apply sweep_invR; auto.
+  - intros a q. pose proof (do_purge_ref sel (s_get s q) a HW) as HR.
+    destruct (do_purge sel (s_get s q)) as [[d' ch] nhl]. cbn [fst snd] in *.
+    apply ref_ok_apply_pre; auto. apply distribute_opt_apply_only.
+  - intros q Hq. apply purge_empty; auto.
+Qed.
+
+Lemma restale_invR s reqs fl' peer :
+  InvR s reqs ->
+  InvR (fst (sweep s fl' (fun p d => let '(d', ch) := do_restale c fl' peer d in (d', distribute_opt c V fl' p ch))))
+       (reqs ++ snd (sweep s fl' (fun p d => let '(d', ch) := do_restale c fl' peer d in (d', distribute_opt c V fl' p ch)))).
+Proof.
+  intro H. apply sweep_invR; auto.
+  - intros a q. pose proof (do_restale_ref fl' peer (s_get s q) a) as HR.
+    destruct (do_restale c fl' peer (s_get s q)) as [d' ch]. cbn [fst snd] in *.
+    apply (ref_ok_apply_post a (s_get s q) d' [] _ HR). apply distribute_opt_apply_only.
+  - intros q Hq. apply restale_empty; auto.
+Qed.
+
+Lemma step_invR s reqs o :
+  wf_op o = true -> InvR s reqs -> InvR (fst (step c V s o)) (reqs ++ snd (step c V s o)).
+Proof.
+  intros HW H. destruct o; cbn [step wf_op] in *.
+  - (* Insert *)
+    destruct (apply_import c (s_pol s) peer nh) as [filtered nh'].
+    pose proof (fun a => proj2 (do_insert_ref (s_fl s) (s_get s p) peer sess pid nh' tok (attr_of c tok) filtered
+                  (match nh' with Some a => memN a (s_inv s) | None => false end) a)) as HR.
+    destruct (do_insert c (s_fl s) (s_get s p) (peer, sess) pid nh' tok (attr_of c tok) filtered _) as [d' ch].
+    cbn [fst snd] in *. destruct H as [R1 R2 R3].
+    constructor; cbn [s_keys s_get].
+    + apply add_key_nodup; auto.
+    + intros q Hq. unfold upd. destruct (pfx_eqb q p) eqn:E.
+      * apply pfx_eqb_eq in E. subst. exfalso. apply Hq. apply add_key_in. auto.
+      * apply R2. intro. apply Hq. apply add_key_in. auto.
+    + intro a. unfold ref_replay. rewrite !fold_left_app. fold (ref_replay reqs a). rewrite R3.
+      change (fold_left (ref_step a)) with (ref_fold a).
+      rewrite (apply_only_ref a (distribute_opt c V (s_fl s) p ch)) by apply distribute_opt_apply_only.
+      rewrite !paths_using_total. cbn [s_keys s_get].
+      pose proof (cnt_le_total a (s_get s) (s_keys s) p R2) as HL.
+      specialize (HR a _ HL). cbn [fst snd] in HR. rewrite HR.
+      pose proof (total_add_key a (s_get s) p d' (s_keys s) R1 (R2 p)) as HT. lia.
+  - (* Remove *)
+    pose proof (fun a => do_remove_ref (s_get s p) peer pid a) as HR.
+    assert (HE : d_l (s_get s p) = [] -> d_l (fst (fst (do_remove (s_get s p) peer pid))) = []).
+    { intro HH. unfold do_remove. rewrite HH. cbn. auto. }
+    destruct (do_remove (s_get s p) peer pid) as [[d' ch] r]. cbn [fst snd] in *.
+    destruct H as [R1 R2 R3]. constructor; cbn [s_keys s_get]; auto.
+    + intros q Hq. unfold upd. destruct (pfx_eqb q p) eqn:E; auto.
+      apply pfx_eqb_eq in E. subst. auto.
+    + intro a. unfold ref_replay. rewrite !fold_left_app. fold (ref_replay reqs a). rewrite R3.
+      change (fold_left (ref_step a)) with (ref_fold a).
+      rewrite (apply_only_ref a (distribute_opt c V (s_fl s) p ch)) by apply distribute_opt_apply_only.
+      rewrite !paths_using_total. cbn [s_keys s_get].
+      pose proof (cnt_le_total a (s_get s) (s_keys s) p R2) as HL.
+      specialize (HR a _ HL). cbn [fst snd] in HR. rewrite HR.
+      pose proof (total_upd a (s_get s) p d' (s_keys s) R1) as HT.
+      assert (HT' : total a (upd p d' (s_get s)) (s_keys s) + cnt a (d_l (s_get s p)) =
+                    total a (s_get s) (s_keys s) + cnt a (d_l d')).
+      { apply HT. intro Hn. rewrite (HE (R2 p Hn)), (R2 p Hn). auto. }
+      lia.
+  - apply purge_invR; auto. intros e He. lia.
+  - apply restale_invR; auto.
+  - apply purge_invR; auto. intros e He. lia.
+  - pose proof (restale_invR s reqs {| f_stale := f_stale (s_fl s); f_llgr := srcs_of s peer ++ f_llgr (s_fl s) |} peer H) as H1.
+    destruct (sweep s _ _) as [s1 r1]. cbn [fst snd] in H1.
+    assert (HWs : forall e, (e_peer e =? peer) && a_nollgr (e_attr e) = true -> e_peer e <> 0) by (intros e He; lia).
+    pose proof (purge_invR s1 (reqs ++ r1) _ HWs H1) as H2.
+    destruct (purge_pass c V s1 _) as [s2 r2]. cbn [fst snd] in *. rewrite app_assoc. auto.
+  - apply purge_invR; auto. intros e He. lia.
+  - (* NhValidity *)
+    pose proof (sweep_invR s reqs (s_fl s)
+                  (fun p d => let '(d', ch) := do_validity a reachable d in (d', distribute_opt c V (s_fl s) p ch)) H) as H1.
+    destruct (sweep s (s_fl s) _) as [s1 r1]. cbn [fst snd] in *.
+    assert (HI : InvR s1 (reqs ++ r1)).
+    { apply H1.
+      - intros a0 q. pose proof (do_validity_ref a reachable (s_get s q) a0) as HR.
+        destruct (do_validity a reachable (s_get s q)) as [d' ch]. cbn [fst snd] in *.
+        apply (ref_ok_apply_post a0 (s_get s q) d' [] _ HR). apply distribute_opt_apply_only.
+      - intros q Hq. apply validity_empty; auto. }
+    destruct HI as [R1 R2 R3]. constructor; auto.
+  - cbn [fst snd]. rewrite app_nil_r. destruct H as [R1 R2 R3]. constructor; auto.
+  - apply sweep_invR; auto.
+    + intros a q. apply do_reset_ref.
+    + intros q Hq. apply reset_empty; auto.
+Qed.
+
+Lemma run_invR ops : forall s reqs, forallb wf_op ops = true -> InvR s reqs ->
+  InvR (fst (run c V s ops)) (reqs ++ snd (run c V s ops)).
+Proof.
+  induction ops as [|o t IH]; intros s reqs HW H; cbn [run].
+  - cbn. rewrite app_nil_r. auto.
+  - cbn [forallb] in HW. apply andb_true_iff in HW. destruct HW as [HW1 HW2].
+    pose proof (step_invR s reqs o HW1 H) as H1. destruct (step c V s o) as [s1 r1].
+    cbn [fst snd] in H1. specialize (IH s1 (reqs ++ r1) HW2 H1).
+    destruct (run c V s1 t) as [s2 r2]. cbn [fst snd] in *. rewrite app_assoc. auto.
+Qed.
+
+Theorem C20_nht_refcount_eq_paths : forall (ops : list op) (a : N),
+  forallb wf_op ops = true ->
+  let s := fst (run c Fixed st0 ops) in
+  let reqs := snd (run c Fixed st0 ops) in
+  ref_replay reqs a = paths_using s a.
+Proof.
+  intros ops a HW. cbn zeta.
+  assert (H0 : InvR st0 []).
+  { constructor; cbn; auto. constructor. }
+  pose proof (run_invR ops st0 [] HW H0) as H. cbn [app] in H. apply H.
+Qed.
+
 End Fib.
